@@ -31,7 +31,7 @@ var errInjected = errors.New("injected i/o fault")
 type faultFs struct {
 	afero.Fs
 	readAt   int64 // the Read that would return the byte at this offset (or the end of the file there) fails; -1: never
-	seekFail int   // the n-th Seek(0, io.SeekStart) fails; 0: never
+	seekFail int   // the n-th Seek(0, io.SeekStart) and every later one fail; 0: never
 }
 
 func (f *faultFs) Open(name string) (afero.File, error) {
@@ -67,7 +67,7 @@ func (f *faultFile) Read(p []byte) (int, error) {
 func (f *faultFile) Seek(offset int64, whence int) (int64, error) {
 	if whence == io.SeekStart && offset == 0 {
 		f.seeks++
-		if f.seeks == f.seekFail {
+		if f.seekFail > 0 && f.seeks >= f.seekFail {
 			return f.pos, errInjected
 		}
 	}
@@ -221,7 +221,7 @@ func jsonlineData(r *rand.Rand) []byte {
 			if i > 0 {
 				b.WriteString(pick(r, jlWs) + "," + pick(r, jlWs))
 			}
-			if r.Intn(12) == 0 { // an element `Setup` refuses (a method with a space), or one that is not an object
+			if r.Intn(6) == 0 { // an element `Setup` refuses (a method with a space), or one that is not an object
 				b.WriteString([]string{`{"method":"G T","host":"h"}`, `{"host":"h","uri":"/","method":"a b","tag":"t"}`, "1", `"s"`, "[]"}[r.Intn(5)])
 			} else {
 				b.WriteString(jlObject(r))
